@@ -21,6 +21,7 @@ import (
 	"strconv"
 	"strings"
 	"sync"
+	"syscall"
 	"time"
 )
 
@@ -202,6 +203,9 @@ func loadKnown() knownFindings {
 }
 
 func main() {
+	if v, err := strconv.Atoi(os.Getenv("VCHECK_STALL_S")); err == nil && v > 0 {
+		stallLimit = time.Duration(v) * time.Second
+	}
 	if len(os.Args) < 3 {
 		fmt.Fprintln(os.Stderr, "usage: vcheck run <property> [--tier quick|thorough] | vcheck replay <path>")
 		os.Exit(2)
@@ -244,10 +248,11 @@ func specFor(prop string) (checkSpec, bool) {
 }
 
 type workerRun struct {
-	shard  int
-	out    string
-	stderr string
-	exit   error
+	shard   int
+	out     string
+	stderr  string
+	exit    error
+	stalled bool
 }
 
 func runWorker(bin, test, tier string, shard, nshards, from, deadline int, seed string, tag string) workerRun {
@@ -264,13 +269,51 @@ func runWorker(bin, test, tier string, shard, nshards, from, deadline int, seed 
 	cmd.Env = env
 	var buf bytes.Buffer
 	cmd.Stdout, cmd.Stderr = &buf, &buf
-	err := cmd.Run()
+	_ = os.Remove(out + ".journal")
+	err := cmd.Start()
+	stalled := false
+	if err == nil {
+		// Watchdog: a case that makes no progress for stallLimit (the journal is written before every case)
+		// is a hang — e.g. a library goroutine spinning forever holds up the whole bubble. Kill the worker;
+		// the journal names the case.
+		done := make(chan error, 1)
+		go func() { done <- cmd.Wait() }()
+		tick := time.NewTicker(2 * time.Second)
+		defer tick.Stop()
+		last := time.Now()
+		var lastSize int64 = -1
+	loop:
+		for {
+			select {
+			case err = <-done:
+				break loop
+			case <-tick.C:
+				if fi, e := os.Stat(out + ".journal"); e == nil && fi.Size() != lastSize {
+					lastSize, last = fi.Size(), time.Now()
+				}
+				if time.Since(last) > stallLimit {
+					stalled = true
+					_ = cmd.Process.Signal(syscall.SIGQUIT)
+					select {
+					case err = <-done:
+					case <-time.After(5 * time.Second):
+						_ = cmd.Process.Kill()
+						err = <-done
+					}
+					break loop
+				}
+			}
+		}
+	}
 	s := buf.String()
 	if len(s) > 6000 {
 		s = s[:2000] + "\n...\n" + s[len(s)-4000:]
 	}
-	return workerRun{shard: shard, out: out, stderr: s, exit: err}
+	return workerRun{shard: shard, out: out, stderr: s, exit: err, stalled: stalled}
 }
+
+// stallLimit is how long one case may run without the worker moving on to the next one.
+var stallLimit = 240 * time.Second
 
 func lastJournal(out string) (int, string, bool) {
 	b, err := os.ReadFile(out + ".journal")
@@ -355,6 +398,13 @@ func runCheck(prop, tier string) int {
 					harnessErr = append(harnessErr, fmt.Sprintf("shard %d died before running a case: %v\n%s", sh, wr.exit, wr.stderr))
 					mu.Unlock()
 					return
+				}
+				if wr.stalled {
+					mu.Lock()
+					crashes = append(crashes, violation{Case: id, Key: "hang:" + hangKey(wr.stderr), Text: fmt.Sprintf("the case made no progress for %v (a goroutine spinning, or the bubble never becoming quiescent); goroutine dump of the killed worker:\n%s", stallLimit, tailLines(pionFrames(wr.stderr), 40))})
+					mu.Unlock()
+					from = idx + 1
+					continue
 				}
 				// Confirm it is deterministic: replay that single case twice in fresh processes.
 				dies := 0
@@ -552,6 +602,46 @@ func runCheck(prop, tier string) int {
 	fmt.Printf("%s tier=%s cases=%d run=%d evals=%d nontrivial=%d states=%d transitions=%d outcomes=%d known=%d violations=%d exhaustive=%v wall=%.1fs\n",
 		prop, tier, total, ran, evals, nontrivial, len(states), len(trans), len(classes), len(viols)-len(fresh), len(fresh), exhaustive, time.Since(start).Seconds())
 	return exit
+}
+
+// pionFrames keeps the lines of a goroutine dump that mention library code.
+func pionFrames(out string) string {
+	var keep []string
+	for _, l := range strings.Split(out, "\n") {
+		if strings.Contains(l, "[running") || (strings.Contains(l, "github.com/pion/dtls/v3") && !strings.Contains(l, "zzverif") && !strings.HasPrefix(strings.TrimSpace(l), "/")) {
+			keep = append(keep, strings.TrimSpace(l))
+		}
+	}
+	return strings.Join(keep, "\n")
+}
+
+// hangKey names the innermost library function of the running goroutine in a SIGQUIT dump.
+func hangKey(out string) string {
+	lines := strings.Split(out, "\n")
+	for i, l := range lines {
+		if strings.Contains(l, "[running") {
+			var frames []string
+			for _, m := range lines[i+1:] {
+				if strings.HasPrefix(m, "goroutine ") {
+					break
+				}
+				if strings.Contains(m, "github.com/pion/dtls/v3") && !strings.Contains(m, "zzverif") && !strings.HasPrefix(strings.TrimSpace(m), "/") {
+					f := strings.TrimSpace(m)
+					if j := strings.Index(f, "("); j > 0 && !strings.HasPrefix(f, "(") {
+						// keep "pkg.(*T).method"
+						if k := strings.LastIndex(f, "("); k > 0 {
+							f = f[:k]
+						}
+					}
+					frames = append(frames, f)
+				}
+			}
+			if len(frames) > 0 {
+				return strings.ReplaceAll(frames[len(frames)-1], " ", "_")
+			}
+		}
+	}
+	return "unknown"
 }
 
 func crashKey(out string) string {
